@@ -217,13 +217,20 @@ fn l1n(f: &str, flag: u16, ax: u16, dx: u16) -> String {
     )
 }
 
-fn run(req: &str) -> String {
-    // "<header tokens> | <line> ; <cells>"
+fn run(req: &str, filled: bool) -> String {
+    // "<header tokens> | <line> ; <cells>"   (runf: the first header token is the value every memory cell not poked starts with)
     let (head, rest) = match req.find('|') { Some(i) => (&req[..i], &req[i + 1..]), None => return "{\"error\":\"no line\"}".into() };
     let (line, cells) = match rest.find(';') { Some(i) => (rest[..i].trim(), rest[i + 1..].trim()), None => (rest.trim(), "") };
     let t: Vec<&str> = head.split_whitespace().collect();
     let mut vm = VM::new();
     let mut k = 0;
+    if filled {
+        let f: u64 = t[0].parse().unwrap();
+        for c in vm.mem.iter_mut() {
+            *c = f as u8;
+        }
+        k = 1;
+    }
     let regs: Vec<u16> = t[k..k + 14].iter().map(|x| x.parse::<u64>().unwrap() as u16).collect();
     k += 14;
     set_regs(&mut vm, &regs);
@@ -324,7 +331,8 @@ fn main() {
             "l1b" => { let (f, a, b, c) = (t[0].clone(), n(1), n(2), n(3)); catch(move || l1b(&f, a, b, c)) }
             "l1u" => { let (f, a, b, c, d) = (t[0].clone(), n(1), n(2), n(3), n(4)); catch(move || l1u(&f, a, b, c, d)) }
             "l1n" => { let (f, a, b, c) = (t[0].clone(), n(1), n(2), n(3)); catch(move || l1n(&f, a, b, c)) }
-            "run" => run(rest),
+            "run" => run(rest, false),
+            "runf" => run(rest, true),
             "asm" => asm(rest),
             "data" => data(rest),
             _ => "{\"error\":\"unknown command\"}".to_string(),
